@@ -7,6 +7,7 @@ import (
 	"regexp"
 	"sort"
 	"strings"
+	"sync"
 	"sync/atomic"
 
 	"github.com/safing/portbase/database"
@@ -76,6 +77,16 @@ func (m *mrec) flagged() bool { return m.Secret || m.Crown }
 
 func (m *mrec) payload() []byte {
 	return []byte(fmt.Sprintf(`{"M":%q,"N":%d,"T":%q}`, m.Marker, m.N, m.T))
+}
+
+// typedRec is the record as its owner works with it (the usual record.Base + sync.Mutex struct).
+type typedRec struct {
+	record.Base
+	sync.Mutex
+
+	M string
+	N int64
+	T string
 }
 
 type markerInfo struct {
@@ -632,6 +643,33 @@ func (e *env) execWriter(op opSpec, k string) {
 		if err := put(nil); err != nil {
 			e.failf("MODEL: privileged PutMany finish failed: %v", err)
 		}
+
+	case "w.rmw":
+		// the owner's usual update: get, unwrap into the typed struct, change, put. Nobody took a flag off the record.
+		if m == nil || e.p.rt != nil {
+			return // (the harness' runtime provider only takes wrappers)
+		}
+		r, err := e.w.Get(e.full(k))
+		if err != nil {
+			e.failf("MODEL: privileged Get(%q) before an update failed: %v", k, err)
+		}
+		got, ok := r.(*typedRec) // (a storage that keeps objects hands the struct of an earlier update back)
+		if !ok {
+			got = &typedRec{}
+			if err := record.Unwrap(r, got); err != nil {
+				e.failf("MODEL: record.Unwrap(%q) failed: %v", k, err)
+			}
+		}
+		nm := &mrec{Marker: e.newMarker(k, m.Secret, m.Crown), N: int64(op.N % 10), T: tval(op.T), Secret: m.Secret, Crown: m.Crown}
+		got.Lock()
+		got.M, got.N, got.T = nm.Marker, nm.N, nm.T
+		got.Unlock()
+		if err := e.w.Put(got); err != nil {
+			e.failf("MODEL: privileged Put of the unwrapped %q failed: %v", k, err)
+		}
+		e.model[k] = nm
+		e.event(k, *nm, false)
+		stats.Class("owner_updates_a_record_through_unwrap")
 
 	case "w.secret", "w.crown":
 		var err error
